@@ -274,7 +274,7 @@ pub fn run(rep: &mut Report) {
         rep.absorb("ancilla and post-selection pairs", &format!("2-qubit circuits init_anc(S) ; body of <= {} gates ; post_sel(S') for the 8 non-trivial (S, S'): every ordered pair of bodies at equal arity, every ordered pair of arities on four bodies; 'not equal' and the tensor / dimension helpers judged on all of them, 'equal' on the isometric ones (no post-selection)", depth), true, None, t0, stats);
     }
     // constructed partners
-    for (name, q, alpha, d) in if quick { vec![("partners K(2,3,A_ct)", 2usize, alpha_ct(2), 3usize), ("partners K(3,1,A_full)", 3, alpha_full(3), 1), ("partners K(2,1,A_tol)", 2, alpha_tol(2), 1), ("partners K(1,3,A_tol)", 1, alpha_tol(1), 3), ("partners K(3,2,A_pp)", 3, alpha_pp(3), 2)] } else { vec![("partners K(2,3,A_ct)", 2, alpha_ct(2), 3), ("partners K(3,2,A_ct)", 3, alpha_ct(3), 2), ("partners K(3,2,A_full)", 3, alpha_full(3), 2), ("partners K(2,2,A_tol)", 2, alpha_tol(2), 2), ("partners K(3,3,A_pp)", 3, alpha_pp(3), 3)] } {
+    for (name, q, alpha, d) in if quick { vec![("partners K(2,3,A_ct)", 2usize, alpha_ct(2), 3usize), ("partners K(3,1,A_full)", 3, alpha_full(3), 1), ("partners K(2,1,A_tol)", 2, alpha_tol(2), 1), ("partners K(1,3,A_tol)", 1, alpha_tol(1), 3), ("partners K(3,2,A_pp)", 3, alpha_pp(3), 2)] } else { vec![("partners K(2,3,A_ct)", 2, alpha_ct(2), 3), ("partners K(3,2,A_ct)", 3, alpha_ct(3), 2), ("partners K(3,2,A_full)", 3, alpha_full(3), 2), ("partners K(2,2,A_tol)", 2, alpha_tol(2), 2), ("partners K(1,4,A_tol)", 1, alpha_tol(1), 4), ("partners K(2,3,A_tol)", 2, alpha_tol(2), 3), ("partners K(3,3,A_pp)", 3, alpha_pp(3), 3)] } {
         let t0 = Instant::now();
         let n = circuit_count(alpha.len(), d);
         let stats = sweep_range(n, |st, idx| {
